@@ -24,9 +24,11 @@ REPS_QUICK = ["<a>", "<A N>", "</a>", "<b/>", "<a x/>", "k v", "k", "k v", "K $$
               "k a\x0cb", "m x\u2028y z",
               # two literal dollars side by side; a key that begins with U+FEFF (not white space: an ordinary
               # character, on whatever line it stands)
-              "k $$$$", "\ufeffq v"]
+              "k $$$$", "\ufeffq v",
+              # a directive word ends at any white space, not just at a blank
+              "%define\tx y"]
 REPS_MORE = ["k # v", "k %v", "<a/ n/ >", "%import p$$$$", "%import p$$", "é É", "<é É>", "</é>", "k  v   w",
-             "\ufeff<a>", "\ufeff# c", "%import \ufeffp"]
+             "\ufeff<a>", "\ufeff# c", "%import \ufeffp", "%include\tf", "%import\tp", "%define\u3000x y"]
 
 
 def round_trip(text):
@@ -128,6 +130,10 @@ def run(chk):
         for _ in range(k):
             lines = c03.random_text(rng)
             recs.append(make_record(lines, rng.randint(0, 1)))
+        if done == 0:
+            # the configuration texts that ship with the repository (as they are: refused where they use %define /
+            # %include; and with those lines taken out)
+            recs += [make_record(lines, 0) for lines in c03.repo_texts()]
         racc += sum(1 for r in recs if r["_got"]["r"] == "ok")
         flow.run_v(chk, "MC_C17_V", vcfg, recs, describe, header=c03.header_for(recs), nontrivial=nontrivial)
         done += k
